@@ -30,6 +30,14 @@ type Mixed struct {
 	B [3]int32
 	Q *Payload
 }
+// ArrComp: the only references sit inside arrays (an array of pointers, an array of structs)
+type ArrComp struct {
+	A [2]*Payload
+	N [1]struct {
+		X int64
+		P *Payload
+	}
+}
 type Plain struct{ X, Y int64 }
 type Tag struct{}
 type Child struct {
@@ -47,10 +55,11 @@ const (
 	kPlain
 	kTag
 	kChild
+	kArr
 	nKinds
 )
 
-var kindNames = [nKinds]string{"PtrComp", "SliceComp", "MapComp", "StrComp", "Mixed", "Plain", "Tag", "Child"}
+var kindNames = [nKinds]string{"PtrComp", "SliceComp", "MapComp", "StrComp", "Mixed", "Plain", "Tag", "Child", "ArrComp"}
 
 // objState is the harness-side record of one tracked heap object (a Payload,
 // the backing array of a SliceComp slice, or the bytes of a StrComp string).
@@ -177,6 +186,8 @@ func heapComp(pl *plan) interface{} {
 		return &Tag{}
 	case kChild:
 		return &Child{P: newPayload(pl.pids[0])}
+	case kArr:
+		return mkArr(pl)
 	}
 	panic("bad kind")
 }
@@ -204,5 +215,14 @@ func writeThrough(ptr unsafe.Pointer, pl *plan) {
 	case kTag:
 	case kChild:
 		(*Child)(ptr).P = newPayload(pl.pids[0])
+	case kArr:
+		*(*ArrComp)(ptr) = *mkArr(pl)
 	}
+}
+
+func mkArr(pl *plan) *ArrComp {
+	c := &ArrComp{A: [2]*Payload{newPayload(pl.pids[0]), newPayload(pl.pids[1])}}
+	c.N[0].X = pl.x
+	c.N[0].P = newPayload(pl.pids[2])
+	return c
 }
